@@ -5,8 +5,9 @@
       non-negativity, sums, posterior clauses, two-stage and SOSA identities, agreement of the three paths.
    C: the extracted models (Eigen branch for the dense and sparse library models, query-loop branch for
       the user-defined model) are compared with the implementation.
-   Regime "dy": all inputs dyadic, unnormalised quantities are compared bit for bit; quotients within
-   fclose.  Regime "gen": arbitrary doubles, everything within fclose. *)
+   Regime "dy": all inputs dyadic, unnormalised quantities are compared bit for bit (Vio.q_eq / the Coq
+   checkers); quotients within Vio.q_close (1e-9 abs+rel).  Regime "gen": arbitrary doubles, everything
+   within q_close. *)
 open Model
 open Vio
 
@@ -123,7 +124,8 @@ let judge _id (c : cursor) (r : cursor) : bool * string =
                   let stu = site "updateBeliefUnnormalized" k in
                   let un = List.map (fin "unnorm_is_bayes" stu) po.un in
                   let spec = sp_tau (bi, ai, oi) in
-                  let ok = if exact then check_unnorm m b na no un else close_l un spec in
+                  (* dyadic regime: the verified checker (reduced twin) and Base.Mdp.tau_step itself, both exactly *)
+                  let ok = if exact then check_unnorm m b na no un && veqb un (tau_step m b na no) else close_l un spec in
                   if not ok then
                     oracle_fail "unnorm_is_bayes" stu
                       (Printf.sprintf "b#%d a=%d o=%d: got [%s], Bayes filter [%s]" bi ai oi (str_qs un) (str_qs spec));
